@@ -796,6 +796,10 @@ func genRuns(r *simkit.RNG, sc *Scenario, k *knobs, profile string) {
 		if r.Chance(1, 12) {
 			p.Spelling = "symlink-loop" // the source argument is a link whose chain never ends
 		}
+		if nr := simkit.NewRNG(sc.Seed, "pw/not-a-dir"); nr.Chance(1, 10) {
+			// the source argument is a regular file, or a link to one: there is no tree to pack
+			p.Spelling = simkit.Pick(nr, []string{"not-a-dir", "link-to-file"})
+		}
 		sc.Runs = []PackRun{p}
 		if k.rules && r.Chance(1, 4) {
 			sc.RulesKind = simkit.Pick(r, []string{"dir", "longline", "fifo", "fifo-link"})
